@@ -104,6 +104,22 @@ package tsi
 //@ func (*indexSearch).doPrune$1
 //@   ensures [visit_every_bucket] result
 
+// DROP SERIES persists one 8-byte item per dropped id. Every item needs a buffer of its own: the buffer handed to
+// the encoder was allocated after the previous item was queued (a shared buffer leaves only the last id on disk,
+// and the other dropped series come back after a restart).
+//@ prop C13
+//@ func (*MergeSetIndex).WriteDeleteTsids
+//@   ghost mark int = 0
+//@   call MarshalUint64
+//@     requires [own_buffer_per_id] arrayid(arg0) > mark && arg1 == tsids[i]
+//@   call append
+//@     set mark = allocmark()
+//@   call .AddItems
+//@     requires [all_ids_persisted] len(arg0) == len(tsids)
+//@   loop 1
+//@     invariant len(items) == rangeindex + 1 && mark <= allocmark()
+//@ prop C10 C13
+
 //@ func (*MergeSetIndex).GetDeletedTSIDs
 //@   trusted atomic load of the current deleted set
 //@   assigns nothing
